@@ -670,7 +670,10 @@ fn explore(ex: &mut Explorer, log: &[Ev], commits: &[CommitRec], seed: u64, thor
                         let mut tears = BTreeMap::new();
                         tears.insert(*h, Tear::Words(m));
                         let spec = CrashSpec { commit: rec.n, kind: "power".into(), at, survivors: s.clone(), tears };
-                        if let Some(x) = check_one(ex, log, commits, &spec, false) {
+                        // one recovery from a torn header in six is followed by a further commit
+                        // (which, at the second level, is crashed in turn)
+                        let fu = r.chance(1, 6);
+                        if let Some(x) = check_one(ex, log, commits, &spec, fu) {
                             return Some(x);
                         }
                     }
